@@ -8,6 +8,7 @@ import (
 	"runtime/pprof"
 	"sort"
 	"strings"
+	"time"
 )
 
 type Driver func(w *World, c *Check)
@@ -106,6 +107,15 @@ func runCheck(id, tier string, d Driver) (code int) {
 
 // guard runs f and converts "outside subset"/engine panics into an engine-error obligation.
 func guard(c *Check, name string, f func()) {
+	if flt := os.Getenv("GOVC_ONLY"); flt != "" && !strings.Contains(name, flt) && !strings.Contains(flt, name) {
+		return // debugging aid
+	}
+	t0 := time.Now()
+	defer func() {
+		if os.Getenv("GOVC_TRACE") != "" {
+			fmt.Fprintf(os.Stderr, "[trace] %-70s %6.2fs terms=%d\n", name, time.Since(t0).Seconds(), termSeq)
+		}
+	}()
 	defer func() {
 		if r := recover(); r != nil {
 			msg := fmt.Sprint(r)
